@@ -69,7 +69,13 @@ func (g *Gen) hostType(depth int, uniform bool) *Type {
 			case 0:
 				et = g.U.Vec(4, g.hostScalar())
 			default:
-				et = g.U.Mat(r.Range(2, 4), 4, F32)
+				// (columns of 3 or 4 rows are 16-byte aligned, so every stride is a multiple of 16)
+				rows := 4
+				if g.on("uniform.array-of-matCx3") && r.Bool() {
+					rows = 3
+					g.feat("uniform.array-of-matCx3")
+				}
+				et = g.U.Mat(r.Range(2, 4), rows, F32)
 			}
 		}
 		return g.U.Array(et, r.Range(1, 4))
